@@ -118,7 +118,7 @@ package kvstore
 //@   loop 0 decreases i + 1
 
 //@ func (k *KVStore) UpdateTTL(hkey uint64, data storage.Entry) error
-//@   props C11 C09
+//@   props C11 C09 C04
 //@   flag termination
 //@   requires #inv_in: k.inv()
 //@   requires #entry: data != nil
@@ -128,7 +128,7 @@ package kvstore
 //@   ensures  #same_keys [C11]: forall h uint64, i int {k.tables[i].has(h)} :: 0 <= i && i < len(k.tables) ==> k.tables[i].has(h) == old(k.tables[i].has(h)) && (k.tables[i].has(h) ==> k.tables[i].off(h) == old(k.tables[i].off(h)))
 //@   ensures  #same_tables: len(k.tables) == old(len(k.tables)) && forall j int {k.tables[j]} :: 0 <= j && j < len(k.tables) ==> k.tables[j] == old(k.tables[j])
 //@   ensures  #inv_out: k.inv()
-//@   ensures  #ttl [C09 C11]: result == nil ==> forall i int {k.tables[i]} :: k.at(hkey, i) ==> k.tables[i].ttlOf(hkey) == data.ttl && k.tables[i].tsOf(hkey) == data.timestamp
+//@   ensures  #ttl [C09 C11 C04]: result == nil ==> forall i int {k.tables[i]} :: k.at(hkey, i) ==> k.tables[i].ttlOf(hkey) == data.ttl && k.tables[i].tsOf(hkey) == data.timestamp
 //@   loop 0 invariant #scanned: -1 <= i && i < len(k.tables) && k.inv() && (forall j int {k.tables[j]} :: i < j && j < len(k.tables) ==> !k.tables[j].has(hkey)) &&
 //@                len(k.tables) == old(len(k.tables)) && (forall j int {k.tables[j]} :: 0 <= j && j < len(k.tables) ==> k.tables[j] == old(k.tables[j])) &&
 //@                (forall j int, h uint64 {k.tables[j].has(h)} :: 0 <= j && j < len(k.tables) ==> k.tables[j].has(h) == old(k.tables[j].has(h)) && (k.tables[j].has(h) ==> k.tables[j].off(h) == old(k.tables[j].off(h))))
